@@ -9,9 +9,9 @@ class C34(Prop):
                dict(pkg="internal/protocols/httpp", test="TestVerifC34Http"),
                dict(pkg="internal/protocols/rtsp", test="TestVerifC34Rtsp")]
     n_quick = 500          # per driver
-    n_thorough = 20000
+    n_thorough = 8000
     shard = 250
-    ready = False
+    ready = True
     rule = ("per driver VERIF_N cases from one seed. SRT: legacy ids printed from (action,path,user,pass,query) fields "
             "(with/without '#feedbackplay', fields with ':' as precondition-off cases), standard ids printed from key=value "
             "items (known/unknown/duplicate keys, bad modes, values with '=' ':' and hostile bytes), boundary and mutated raw "
